@@ -37,6 +37,10 @@ class HarnessAbort(BaseException):
     pass
 
 
+class HarnessTimeout(Exception):
+    pass
+
+
 def _try(thunk, alt):
     try:
         return thunk()
@@ -185,11 +189,16 @@ def space_formula_source(f):
 _TWO_A, _TWO_B = (lambda x: x + 1), (lambda x: x + 2)    # two lambdas on one source line: cannot be captured
 
 
+_NOSRC = {}
+exec("def f(x):\n    return x + 1\n", _NOSRC)       # a function whose source cannot be retrieved
+
+
 def raw_formula(f):
     """formula argument of a raw operation: text (or any JSON value) as is, {"obj": tag} -> a function object
     that cannot be turned into a formula"""
     if isinstance(f, dict) and set(f) == {"obj"}:
-        return {"two_lambdas": _TWO_B, "builtin": len, "partial": __import__("functools").partial(max, 1)}[f["obj"]]
+        return {"two_lambdas": _TWO_B, "builtin": len, "partial": __import__("functools").partial(max, 1),
+                "no_source": _NOSRC["f"]}[f["obj"]]
     return f
 
 
@@ -330,7 +339,17 @@ class Real:
         self.space(src).cells[name].copy(self.space(dst), new)
 
     def op_copy_space(self, src, dstparent, new):
-        self.space(src).copy(self.space(dstparent) if dstparent else self.m, new)
+        import signal
+
+        def alarm(*a):
+            raise HarnessTimeout("copy did not return within 3 s")
+        old = signal.signal(signal.SIGALRM, alarm)
+        signal.alarm(3)         # (copying a space into its own tree must be refused, not run for ever)
+        try:
+            self.space(src).copy(self.space(dstparent) if dstparent else self.m, new)
+        finally:
+            signal.alarm(0)
+            signal.signal(signal.SIGALRM, old)
 
     def op_rename_cells(self, path, name, new):
         self.space(path).cells[name].rename(new)
